@@ -88,8 +88,15 @@ pub fn strategy() -> BoxedStrategy<Case> {
             if src == Kind::Yuv8 {
                 cfg.bit_depth = 8;
             }
+            let mut w = w;
             if w > 64 {
                 h = 1 + h % 2; // wide images are kept thin
+            }
+            if seed % 300 == 7 {
+                // a real-size frame now and then (pointwise relation on corner / boundary / sampled positions)
+                let (lw, lh) = crate::gen::LARGE_SIZES[(seed / 300) as usize % crate::gen::LARGE_SIZES.len()];
+                w = lw;
+                h = lh;
             }
             // sizes 1..=64, multiples of the subsampling factor
             let bw = (w >> cfg.subsampling_x).max(1);
@@ -251,6 +258,20 @@ fn positions(w: usize, h: usize, seed: u64) -> Vec<(usize, usize)> {
     }
     let mut e = Expand(seed ^ 0x55);
     let mut v = vec![(0, 0), (w - 1, 0), (0, h - 1), (w - 1, h - 1), (w / 2, h / 2), (1.min(w - 1), 0), (0, 1.min(h - 1)), (1024.min(w - 1), 0), (1025.min(w - 1), h - 1), (2048.min(w - 1), 0), (2049.min(w - 1), h - 1)];
+    // raster positions around powers of two (tables, tiles, bands) and the very last pixels (dropped tails)
+    let n = w * h;
+    for k in [8192usize, 32768, 65536, 131072, 262144, 1 << 20] {
+        for d in [0usize, 1, 2] {
+            for i in [k.saturating_sub(d), k + d] {
+                if i < n {
+                    v.push((i % w, i / w));
+                }
+            }
+        }
+    }
+    for d in 1..=17usize.min(n) {
+        v.push(((n - d) % w, (n - d) / w));
+    }
     for _ in 0..120 {
         v.push((e.below(w as u64) as usize, e.below(h as u64) as usize));
     }
@@ -462,6 +483,11 @@ pub fn run(ctx: &Ctx, st: &mut Stats) -> Vec<Violation> {
     }
     // R9: model-based call histories (see c11_hist.rs)
     v.extend(run_proptest(ctx, st, "histories", ctx.cases(8_000, 400_000), super::c11_hist::strategy, super::c11_hist::check));
+    if !v.is_empty() {
+        return v;
+    }
+    // R10: order-permutation differential in fresh processes (see c11_order.rs)
+    v.extend(super::c11_order::run(ctx, st));
     v
 }
 
@@ -469,7 +495,10 @@ pub fn replay(v: &Value) -> Result<(), String> {
     if v.get("part").and_then(|p| p.as_str()) == Some("history") {
         return super::c11_hist::replay(v);
     }
+    if v.get("part").and_then(|p| p.as_str()) == Some("order") {
+        return super::c11_order::replay(v);
+    }
     check(&Case::from_json(v).ok_or("bad case")?, &mut Stats::new()).map_err(|v| v.message)
 }
 
-pub const RULE: &str = "cases = (source type in {Yuv<u8>, Yuv<u16>, Rgb, LinearRgb, Xyb, Hsl}, any working config (7 standard + 5 primaries-derived matrices) with one of 6 subsamplings, size 1..=64 x 1..=64 (one case in seven: a thin image 1025..4200 pixels wide) rounded to a multiple of the subsampling, random content (a third of the images with related neighbours: runs, partly equal pixels, pixels equal to the converted previous pixel), two independent padding layouts 0..=32 with different padding contents) generated by proptest; every conversion edge leaving the source type is run (18 From/TryFrom impls in total, by reference and by value, u8 and u16 outputs). Metamorphic relations: R1 dimensions preserved; R2 output pixel i is bit-identical to the conversion of the 1x1 image made of input pixel i (YUV sources: Y(x,y) with the chroma sample at (x>>ss_x, y>>ss_y)), on all pixels of images up to 256 pixels and 127 positions (corners + random) of larger ones; R3 encode to subsampled YUV: luma equals the 4:4:4 luma plane, each chroma sample equals the 4:4:4 chroma of a pixel of its own block, plane sizes (w>>ss_x, h>>ss_y); R4 YUV sources rebuilt with another padding/stride and other padding contents give bit-identical output; R5 sources compare equal to a clone taken before; R6 a second run is bit-identical; R7 a float source obtained through an earlier conversion from a bland image and overwritten through data_mut() converts exactly like a fresh image with the same data; R8 the result is unchanged after conversions with decoy configs (one field changed) ran on the same thread, and equals the result computed on a fresh thread; R9 model-based call histories: 3..12 operations (construct, convert with one of 4 configs differing in one field, paint through data_mut()) over a pool of 3 image slots, every conversion compared with the same conversion of a replica rebuilt from the observable state (data, dims, labels) on a fresh thread. non-trivial = image with w>1 and h>1; distinct = by hash of the case";
+pub const RULE: &str = "cases = (source type in {Yuv<u8>, Yuv<u16>, Rgb, LinearRgb, Xyb, Hsl}, any working config (7 standard + 5 primaries-derived matrices) with one of 6 subsamplings, size 1..=64 x 1..=64 (one case in seven: a thin image 1025..4200 pixels wide; one in 300: a real-size frame of 32768 .. 2 M pixels) rounded to a multiple of the subsampling, random content (a third of the images with related neighbours: runs, partly equal pixels, pixels equal to the converted previous pixel), two independent padding layouts 0..=32 with different padding contents) generated by proptest; every conversion edge leaving the source type is run (18 From/TryFrom impls in total, by reference and by value, u8 and u16 outputs). Metamorphic relations: R1 dimensions preserved; R2 output pixel i is bit-identical to the conversion of the 1x1 image made of input pixel i (YUV sources: Y(x,y) with the chroma sample at (x>>ss_x, y>>ss_y)), on all pixels of images up to 256 pixels and 127 positions (corners + random) of larger ones; R3 encode to subsampled YUV: luma equals the 4:4:4 luma plane, each chroma sample equals the 4:4:4 chroma of a pixel of its own block, plane sizes (w>>ss_x, h>>ss_y); R4 YUV sources rebuilt with another padding/stride and other padding contents give bit-identical output; R5 sources compare equal to a clone taken before; R6 a second run is bit-identical; R7 a float source obtained through an earlier conversion from a bland image and overwritten through data_mut() converts exactly like a fresh image with the same data; R8 the result is unchanged after conversions with decoy configs (one field changed) ran on the same thread, and equals the result computed on a fresh thread; R9 model-based call histories: 3..12 operations (construct, convert with one of 4 configs differing in one field, paint through data_mut()) over a pool of 3 image slots, every conversion compared with the same conversion of a replica rebuilt from the observable state (data, dims, labels) on a fresh thread; R10 order-permutation differential: a fixed list of ~480 constructor and conversion calls (tiny and real-size images, configs differing in one field, Unspecified metadata, frame shapes of equal area) executed in four different orders, each in a fresh process, must give the same result call by call. non-trivial = image with w>1 and h>1; distinct = by hash of the case";
